@@ -100,7 +100,7 @@ class System(Component):
             else state_dims_in_j
         if not isinstance(gamma, float):
             raise type_error(gamma, "gamma", float)
-        if (not isfinite(gamma)) and gamma > 0.0:
+        if (not isfinite(gamma)) or (gamma <= 0.0):
             raise ValueError(
                 f"gamma must be positive and finite, but is {gamma}.")
         #: The Weight of the control values in the figure of merit computation.
@@ -133,7 +133,7 @@ class System(Component):
 
         if not isinstance(test_time, float):
             raise type_error(test_time, "test_time", float)
-        if (not isfinite(test_time)) and test_time > 1e-5:
+        if (not isfinite(test_time)) or (test_time <= 1e-5):
             raise ValueError(
                 f"test_time must be > 1e-5 and finite, but is {test_time}.")
         #: the test time
@@ -144,7 +144,7 @@ class System(Component):
             training_steps, "training_steps", 10, 1_000_000_000)
         if not isinstance(training_time, float):
             raise type_error(training_time, "training_time", float)
-        if (not isfinite(training_time)) and training_time > 1e-5:
+        if (not isfinite(training_time)) or (training_time <= 1e-5):
             raise ValueError(f"training_time must be > 1e-5 and finite, "
                              f"but is {training_time}.")
         #: the training time
